@@ -115,6 +115,7 @@ type dpState struct {
 	open     map[string]*updog.Index  // ds/writer/mode
 	openErr  map[string]string        // ds/writer/mode -> ERR | PANIC
 	nfile    int
+	hist     *history
 }
 
 func newDPState() *dpState {
@@ -126,7 +127,18 @@ func newDPState() *dpState {
 		open: map[string]*updog.Index{}, openErr: map[string]string{}}
 }
 
+// t2expr re-parses the expression of an HQ line so that the reference query shares no
+// object with the query under test.
+func t2expr(line string) updog.Expression {
+	t := newToks(line)
+	for j := 0; j < 5; j++ {
+		t.next()
+	}
+	return t.expr()
+}
+
 func (s *dpState) cleanup() {
+	s.finishHistory(s.hist)
 	for _, ix := range s.open {
 		ix.Close()
 	}
@@ -361,6 +373,85 @@ func dpCmd(args []string) {
 				continue
 			}
 			pr("Q %s %s\n", qid, execQuery(ix, &updog.Query{Expr: e, GroupBy: gb}))
+		case "HIST":
+			s.finishHistory(s.hist)
+			hid, ds, writer, mode := t.next(), t.next(), t.next(), t.next()
+			capv := t.next()
+			var c int64
+			if capv[0] == '-' {
+				c = -int64(atou(capv[1:]))
+			} else {
+				c = int64(atou(capv))
+			}
+			s.hist = s.startHistory(hid, ds, writer, mode, c)
+		case "ENDHIST":
+			s.finishHistory(s.hist)
+			s.hist = nil
+		case "HQ":
+			qid := t.next()
+			t.next()
+			t.next()
+			t.next()
+			e := t.expr()
+			if t.next() != "GB" {
+				fatal("expected GB")
+			}
+			m := t.int()
+			var gb []string
+			for j := 0; j < m; j++ {
+				gb = append(gb, t.str())
+			}
+			h := s.hist
+			if h == nil {
+				fatal("HQ outside a history")
+			}
+			if h.ix == nil {
+				pr("HQ %s %s\n", qid, h.oc)
+				continue
+			}
+			pr("HQ %s %s\n", qid, execQuery(h.ix, &updog.Query{Expr: e, GroupBy: gb}))
+			if h.fresh != nil {
+				pr("HF %s %s\n", qid, execQuery(h.fresh, &updog.Query{Expr: t2expr(lines[i]), GroupBy: gb}))
+			}
+		case "CONC":
+			cid, ds, writer, mode := t.next(), t.next(), t.next(), t.next()
+			capv := t.next()
+			var c int64
+			if capv[0] == '-' {
+				c = -int64(atou(capv[1:]))
+			} else {
+				c = int64(atou(capv))
+			}
+			nthreads, perThread, seed, nq := t.int(), t.int(), t.int(), t.int()
+			var pool []concQuery
+			for j := 0; j < nq; j++ {
+				i++
+				ht := newToks(lines[i])
+				for x := 0; x < 5; x++ {
+					ht.next()
+				}
+				ht.expr()
+				if ht.next() != "GB" {
+					fatal("expected GB")
+				}
+				m := ht.int()
+				var gb []string
+				for y := 0; y < m; y++ {
+					gb = append(gb, ht.str())
+				}
+				pool = append(pool, concQuery{line: lines[i], gb: gb})
+			}
+			s.concRun(cid, ds, writer, mode, c, nthreads, perThread, int64(seed), pool)
+			for j := range pool {
+				qid := newToks(pool[j].line)
+				qid.next()
+				pr("HQ %s %s\n", qid.next(), pool[j].want)
+			}
+		case "LRUD":
+			cid := t.next()
+			capv := atou(t.next())
+			nthreads, perThread, nkeys, seed := t.int(), t.int(), t.int(), t.int()
+			lruDirect(cid, capv, nthreads, perThread, nkeys, int64(seed))
 		case "QVAL":
 			// one *updog.Query value executed on several indexes in sequence (C08)
 			qid := t.next()
